@@ -338,7 +338,8 @@ class C04(Prop):
     pid = "C04"
     prop_file = "Props/C04.v"
     module = "Props.C04"
-    gen_deps = ["Table", "Style", "Render", "Palette", "Svg", "Roff", "Git", "Ls", "ParseCfg"]
+    gen_deps = ["Table", "Style", "Render", "Palette", "Svg", "Roff", "Git", "Ls", "ParseCfg",
+                "ParserFn", "StripFn", "WinconFn", "LossyFn", "LsFn", "GitFn", "RoffFn"]
     harness = ("h-core", "hcore")
     shard_min = 400
     nontrivial_rule = (
